@@ -132,6 +132,23 @@ func c09Run(c *fw.Case, typ byte, keyType string, proto protocol.Protocol, g gri
 		s.Anchor.Time = g.t
 		s.Facts.InWindow = in
 	}}}
+	// longer histories in front of the operation under test: an earlier operation anchored LATER than it (windows are judged at the
+	// operation's own anchoring time), or a recover that was out of its window and left an empty document behind
+	switch (c.Idx / 3) % 4 {
+	case 1:
+		later := g.t + 5000
+		plan = []planEntry{plan[0], {'u', "valid-anchored-later", func(h *histCtx, s *opStep) {
+			s.Spec.AnchorFrom, s.Spec.AnchorUntil = 0, 0
+			s.Anchor.Time = later
+		}}, plan[1]}
+		c.Count("histories-with-non-monotonic-times", 1)
+	case 2:
+		plan = []planEntry{plan[0], {'r', "recover-before-its-window", func(h *histCtx, s *opStep) {
+			s.Spec.AnchorFrom, s.Spec.AnchorUntil = int64(s.Anchor.Time)+1000, 0
+			s.Facts.InWindow = false
+		}}, plan[1]}
+		c.Count("histories-after-degraded-recover", 1)
+	}
 	// the applier is also reachable as a struct literal over its exported members, and its protocol member may be (re)assigned
 	// after construction: the window follows the applier's protocol by every route
 	route := c.Idx % 3
